@@ -50,7 +50,7 @@ const rule = "a history is non-trivial when at least two implementations ran, or
 
 func nHist(tier string) int {
 	if tier == "thorough" {
-		return 40000
+		return 120000
 	}
 	return 2500
 }
@@ -99,6 +99,7 @@ func run(out *Out, r *Rand, tier string, replay []string) {
 		var toks []string
 		cur := -1
 		finished := false
+		exitExpected := false // the child leaves after a stuck history (its bubble cannot be left)
 	loop:
 		for {
 			select {
@@ -120,6 +121,7 @@ func run(out *Out, r *Rand, tier string, replay []string) {
 					if strings.HasPrefix(f[3], "stuck") {
 						caseLine += " STUCK"
 						stucks++
+						exitExpected = true
 					}
 					out.Case(f[2], caseLine, f[3], f[4], f[5] == "1")
 					i = cur + 1
@@ -143,7 +145,7 @@ func run(out *Out, r *Rand, tier string, replay []string) {
 			hangs++
 			out.Case("hang", header+" | "+strings.Join(toks, " ")+" HANG", "hang", "hang", true)
 			i = cur + 1
-		} else if i < n {
+		} else if i < n && !exitExpected {
 			// child died between histories without finishing: should not happen
 			out.Case("hang", "h 1 1 1 0 | HANG", "child-died", "hang", true)
 			i++
